@@ -116,6 +116,8 @@ type vfC16Scn struct {
 	UpSalt       uint32
 	DownSalt     uint32
 	Ordered      bool          // -race build: Close is ordered before the write it would otherwise overlap
+	ReaperOff    bool          // -race build: reaping switched off for this scenario (more than vfC16RetryFits bytes are written)
+	Reaper       bool          // the server silently closes idle kept-alive connections after some answers
 	Forced       bool          // -race build turned a blocked-writer scenario into a NoBlock one
 	StreamReqs   int           // close-while-server-streams: Close after this many data answers in a row ...
 	StreamFor    time.Duration // ... plus this long
@@ -380,6 +382,56 @@ func vfC16GenScn(rt *rapid.T) *vfC16Scn {
 		s.Plan = append(s.Plan, vfC16GenResp(rt, holdy && i < 6))
 	}
 
+	// Idle-connection reaper: the server silently closes the kept-alive
+	// connection after some answers (immediately when it goes idle, or after
+	// an idle time shorter / longer than the client's poll sleep); the client's
+	// next request - a poll or one carrying data - finds a dead connection and
+	// has to be re-issued on a new one.
+	if vfC16Pct(rt, "reaper") < 45 {
+		s.Reaper = true
+		for len(s.Plan) < 8 {
+			s.Plan = append(s.Plan, vfC16GenResp(rt, false))
+		}
+		// a few late, small writes: they find the client asleep between two
+		// polls, on a connection that has been closed in the meantime
+		nl := rapid.IntRange(1, 3).Draw(rt, "lateWrites")
+		for i := 0; i < nl; i++ {
+			s.Writes = append(s.Writes, vfC16W{Size: rapid.IntRange(1, 2500).Draw(rt, "lateSize"),
+				Delay: time.Duration(rapid.IntRange(5, 60).Draw(rt, "lateMs")) * time.Millisecond})
+		}
+		if vfC16Race {
+			// The pinned client cannot survive a silently closed connection
+			// with more than vfC16RetryFits bytes waiting (see classifyDeath);
+			// its worker then dies while the application writes, which the
+			// race detector reports (send vs close of workerWrChan).  The
+			// race build therefore only reaps where that cannot happen.
+			total := 0
+			for _, w := range s.Writes {
+				total += w.Size
+			}
+			if total > vfC16RetryFits {
+				s.Reaper, s.ReaperOff = false, true
+			}
+		}
+		for i := range s.Plan {
+			if !s.Reaper {
+				break
+			}
+			if vfC16Pct(rt, "reap") < 65 {
+				s.Plan[i].Reap = true
+				switch k := vfC16Pct(rt, "reapWhen"); {
+				case k < 45:
+				case k < 70:
+					s.Plan[i].ReapAfter = time.Duration(rapid.IntRange(100, 5000).Draw(rt, "reapUs")) * time.Microsecond
+				case k < 90:
+					s.Plan[i].ReapAfter = time.Duration(rapid.IntRange(10, 90).Draw(rt, "reapMs")) * time.Millisecond
+				default:
+					s.Plan[i].ReapAfter = time.Duration(rapid.IntRange(110, 250).Draw(rt, "reapLongMs")) * time.Millisecond
+				}
+			}
+		}
+	}
+
 	switch s.Mode {
 	case vfC16CloseStreaming:
 		// every answer non-empty, without end; the reader must keep up with the
@@ -480,14 +532,19 @@ type vfC16Run struct {
 	rerr       error
 	rerrT      time.Duration
 
-	postWriteErr string
-	postReadErr  string
-	lateBase     int
-	streamed     int // close-while-server-streams: requests during the download phase before Close
-	reqsAtClose  int // requests that had arrived when Close returned
-	sessionID    string
-	classes      []string
-	nontrivial   bool
+	postWriteErr   string
+	postReadErr    string
+	lateBase       int
+	died           atomic.Bool // Read or Write failed while the connection was open
+	deathSig       string
+	deathMsg       string
+	deathAttempted int64
+	excluded       string // the case is outside what the harness can decide (why)
+	streamed       int    // close-while-server-streams: requests during the download phase before Close
+	reqsAtClose    int    // requests that had arrived when Close returned
+	sessionID      string
+	classes        []string
+	nontrivial     bool
 }
 
 func (r *vfC16Run) now() time.Duration { return r.srv.Since() }
@@ -512,7 +569,64 @@ func (r *vfC16Run) fail(sig, format string, a ...any) {
 	r.mu.Unlock()
 }
 
-func (r *vfC16Run) failed() bool { return r.violation() != "" }
+// failed: a violation has been recorded, or the connection has died while
+// open (verdict pending, see classifyDeath) - either way the scenario is over.
+func (r *vfC16Run) failed() bool { return r.violation() != "" || r.died.Load() }
+
+// vfC16RetryFits: a request whose body is at most this long fits, together
+// with its header (< 300 bytes here), into the 4096-byte write buffer of Go's
+// HTTP transport.  See classifyDeath.
+const vfC16RetryFits = 3000
+
+const vfC16StaleExcl = "connection died on a silently closed idle connection while more than 3000 bytes were waiting to be sent: net/http re-issues a POST after a failed " +
+	"first write only if header + body fit into its 4 KiB write buffer (a failed flush in the middle of the body is recorded as a body read error and not retried), " +
+	"so the pinned client cannot survive this with a larger body either; not decided here"
+
+// openFailure records that Read or Write failed although Close had not been
+// called.  The verdict is given by classifyDeath.
+func (r *vfC16Run) openFailure(sig, format string, a ...any) {
+	msg := fmt.Sprintf(format, a...)
+	r.event("connection failed while open: %s", msg)
+	r.mu.Lock()
+	if r.deathSig == "" {
+		r.deathSig, r.deathMsg = sig, msg
+		r.deathAttempted = r.attempted.Load()
+	}
+	r.mu.Unlock()
+	r.died.Store(true)
+}
+
+// classifyDeath gives the verdict for a connection that failed while it was
+// open and the server answered 200.  That is a violation, with one exception
+// that the harness cannot decide: the last thing the server did was to close
+// the idle connection silently (Resp.Reap) and the request the client then
+// tried to send may have been longer than vfC16RetryFits.  Go's HTTP transport
+// re-issues such a request on a new connection only if nothing of it was
+// written AND the failed write was the final flush; with a body that does not
+// fit into the write buffer the flush fails inside the body copy, which
+// net/http records as an error of the request body and does not retry - for
+// any client built on it.  Bodies up to vfC16RetryFits (and polls) must
+// survive.  attempted - received is an upper bound of that body.
+func (r *vfC16Run) classifyDeath() {
+	if !r.died.Load() || r.violation() != "" {
+		return
+	}
+	r.mu.Lock()
+	sig, msg, att := r.deathSig, r.deathMsg, r.deathAttempted
+	r.mu.Unlock()
+	reqs := r.srv.Snapshot()
+	pending := att - r.srv.UpTotal()
+	if n := len(reqs); n > 0 && reqs[n-1].Reaped && pending > vfC16RetryFits {
+		r.excluded = vfC16StaleExcl
+		r.event("not decided: %d bytes were waiting when the client ran into the silently closed connection", pending)
+		return
+	}
+	ctx := "the server has answered every request it received with 200"
+	if n := len(reqs); n > 0 && reqs[n-1].Reaped {
+		ctx += fmt.Sprintf("; after request #%d it silently closed the idle connection, at most %d bytes were waiting to be sent: the request had to be re-issued on a new connection", reqs[n-1].Seq, pending)
+	}
+	r.fail(sig, "%s (%s)", msg, ctx)
+}
 
 func (r *vfC16Run) violation() string {
 	r.mu.Lock()
@@ -607,7 +721,7 @@ func (r *vfC16Run) reader() {
 			r.rerrT = r.now()
 			r.event("Read failed after %d bytes: %v", r.got.Load(), err)
 			if !r.closeCalled.Load() {
-				r.fail("c16-read-failed-open", "Read failed with %q although Close had not been called and the server answers 200", err)
+				r.openFailure("c16-read-failed-open", "Read failed with %q although Close had not been called and the server answers 200", err)
 			}
 			return
 		}
@@ -707,7 +821,7 @@ func (r *vfC16Run) writer() {
 		}
 		if err != nil {
 			if !calledBefore && !r.closeCalled.Load() {
-				r.fail("c16-write-failed-open", "Write #%d of %d bytes failed with %q although Close had not been called and the server answers 200", i, w.Size, err)
+				r.openFailure("c16-write-failed-open", "Write #%d of %d bytes failed with %q although Close had not been called and the server answers 200", i, w.Size, err)
 			}
 			return // the connection is closed: nothing more is written
 		}
@@ -773,6 +887,7 @@ func (r *vfC16Run) doClose() {
 
 func (r *vfC16Run) run() {
 	scn := r.scn
+	defer r.classifyDeath()
 	r.srv = refmeek.New(scn.Plan, scn.DownSalt)
 	r.srv.SetProbe(func() int64 { return r.attempted.Load() })
 	if scn.Mode == vfC16CloseStreaming {
@@ -1220,6 +1335,26 @@ func (r *vfC16Run) analyse() {
 	if len(r.srv.Dials()) > 1 {
 		cls["redial"] = true
 	}
+	for i := range reqs {
+		q := &reqs[i]
+		if q.Reaped {
+			cls["idle-connection-silently-closed-by-server"] = true
+			if q.Resp.ReapAfter >= 10*time.Millisecond {
+				cls["idle-connection-closed-while-client-sleeps-between-polls"] = true
+			}
+		}
+		if q.ReapNote != "" {
+			cls["planned-idle-close-skipped(next request already in flight)"] = true
+		}
+		if i > 0 && reqs[i-1].Reaped && q.ConnID != reqs[i-1].ConnID {
+			if q.BodyLen > 0 {
+				cls["data-request-first-on-new-connection-after-silent-idle-close"] = true
+				r.nontrivial = true
+			} else {
+				cls["poll-first-on-new-connection-after-silent-idle-close"] = true
+			}
+		}
+	}
 	if scn.Mode == vfC16CloseStreaming && r.streamed >= 20 {
 		cls["close-during-download(>=20 data answers in a row, reader keeping up)"] = true
 	}
@@ -1312,9 +1447,15 @@ func (r *vfC16Run) history() string {
 			fmt.Fprintf(&b, "    (from R#%d on: %s %s Host: %s X-Session-Id: %q x%d)\n", q.Seq, q.Method, q.URL, q.Host, q.SessionID, q.SessionN)
 		}
 		last = q
-		fmt.Fprintf(&b, "    R#%d arrive=%.3fms answer=%.3fms body=%d@%d inflight=%d -> 200 %d@%d hold=%s %s %s%s\n",
-			q.Seq, float64(q.Arrive)/1e6, float64(q.RespStart)/1e6, q.BodyLen, q.UpOff, q.InFlight,
-			q.Resp.Size, q.DownOff, q.Resp.Hold, q.Resp.Mode, q.BodyErr, q.WriteErr)
+		reap := ""
+		if q.Reaped {
+			reap = fmt.Sprintf(" [server closed this connection silently once it had been idle for %s]", q.Resp.ReapAfter)
+		} else if q.ReapNote != "" {
+			reap = " [" + q.ReapNote + "]"
+		}
+		fmt.Fprintf(&b, "    R#%d conn#%d arrive=%.3fms answer=%.3fms body=%d@%d inflight=%d -> 200 %d@%d hold=%s %s %s%s%s\n",
+			q.Seq, q.ConnID, float64(q.Arrive)/1e6, float64(q.RespStart)/1e6, q.BodyLen, q.UpOff, q.InFlight,
+			q.Resp.Size, q.DownOff, q.Resp.Hold, q.Resp.Mode, q.BodyErr, q.WriteErr, reap)
 	}
 	return b.String()
 }
@@ -1366,7 +1507,9 @@ func vfC16Property(t *testing.T, unit string) {
 		"close mode: graceful, right after the last Write, concurrent with a Write, at start, with writer and worker blocked by back-pressure " +
 		"(reader resumes before Close / drains after Close / the application does not call Read until the Write in progress has returned and a later Write has failed), " +
 		"while the server answers every request with data without end and Read keeps draining); " +
-		"non-trivial = a write > 65536, or >= 3 writes merged into one request body, or Close while data was in flight; fingerprint = scenario")
+		"the server silently closes idle kept-alive connections after generated answers (at once / after an idle time), never while a request is in flight; " +
+		"non-trivial = a write > 65536, or >= 3 writes merged into one request body, or Close while data was in flight, " +
+		"or a data-carrying request that was the first on a new connection after the server had closed the previous one while idle; fingerprint = scenario")
 	c.Assume("Go's net/http server and client transport over net.Pipe are trusted (the recording server is harness code)")
 	c.Assume("schedules are sampled by the Go scheduler and real timers; a failing schedule may not replay, the history is printed instead")
 	c.Assume("response bodies > 65536 bytes and non-200 statuses are outside the domain (DESIGN section 4)")
@@ -1379,6 +1522,7 @@ func vfC16Property(t *testing.T, unit string) {
 	c.Floor("resp-max", 0.15)
 	c.Floor("front-on", 0.25)
 	c.Floor("mode-close-while-server-streams", 0.03)
+	c.Floor("data-request-first-on-new-connection-after-silent-idle-close", 0.05)
 	c.Floor("close-during-download(>=20 data answers in a row, reader keeping up)/mode-close-while-server-streams", 0.5)
 	defer func() {
 		// Wait for the lingering watches; report what they found.
@@ -1411,6 +1555,9 @@ func vfC16Property(t *testing.T, unit string) {
 			if vfC16Race && (scn.Mode == vfC16Concurrent || scn.Mode == vfC16AtStart) {
 				scn.Ordered = true
 				c.Excluded(vfC16RaceExcl, 1)
+			}
+			if scn.ReaperOff {
+				c.Excluded("race build: no silent idle closes in scenarios that write more than 3000 bytes (the pinned client's worker may die there while the application writes, which the race detector reports by design of the recover idiom)", 1)
 			}
 			if scn.Forced {
 				c.Excluded(vfC16RaceExcl, 1) // race build: only the worker is parked, no Write overlaps Close
@@ -1467,6 +1614,14 @@ func vfC16Property(t *testing.T, unit string) {
 
 		for _, r := range runs {
 			r := r
+			if r.excluded != "" {
+				if r.conn != nil {
+					_, _ = vfC16Guard(func() { _ = r.conn.Close() })
+				}
+				r.srv.Close()
+				c.Excluded(r.excluded, 1)
+				continue
+			}
 			vfC16HandOver(r)
 			c.Case(ev.Hash(r.scn.String()), r.nontrivial, r.classes, func() any {
 				reqs := r.srv.Snapshot()
